@@ -100,7 +100,7 @@ int main(int argc, char **argv) {
         long l0 = ht_live; ht_on = 1;
 #endif
         if (write(-1, "VERIF:BEGIN", 11) < 0) {}
-        errno = 0;
+        errno = getenv("VERIF_AMBIENT_ERRNO") ? atoi(getenv("VERIF_AMBIENT_ERRNO")) : 0;     /* what the caller's earlier activity left in errno */
         int r = execve("/some/dir/prog", av, ev); int e = errno;
         if (write(-1, "VERIF:END", 9) < 0) {}
 #ifdef VERIF_HEAPTRACK
